@@ -215,7 +215,7 @@ def replay(scn):
 
 # ---------------------------------------------------------------- code -> spec: the repository's own reduction tests, recorded
 def post(tier, seed, ctx):
-    """run tests/test_transformations.py under the recorder plugin and validate every recorded reduction call against the
+    """run the repository's tests and docstring examples (as drivers) under the recorder plugin and validate every recorded reduction call against the
     specification: structure (dims, labels, metadata) inside TLC, values from the fibres TLC prints, evaluated with NumPy"""
     import json
     import os
@@ -229,7 +229,8 @@ def post(tier, seed, ctx):
         if os.path.exists(f):
             os.remove(f)
     env = dict(os.environ, DIMARRAY_VERIF="1", VERIF_TRACE_OUT=out, PYTHONPATH=T.VERIF + os.pathsep + repo)
-    subprocess.run([sys.executable, "-m", "pytest", "-q", "-p", "no:cacheprovider", "-p", "harness.pytest_recorder", "tests/test_transformations.py"],
+    subprocess.run([sys.executable, "-m", "pytest", "-q", "-p", "no:cacheprovider", "-p", "harness.pytest_recorder", "--continue-on-collection-errors",
+                    "--doctest-modules", "--doctest-continue-on-failure", "dimarray", "tests"],
                    cwd=repo, env=env, stdout=subprocess.DEVNULL, stderr=subprocess.DEVNULL, timeout=900)
     if not os.path.exists(out):
         raise T.TLCError("the recorder produced no trace file")
@@ -304,6 +305,6 @@ def post(tier, seed, ctx):
     finally:
         np.seterr(**old)
     ctx.traces += ok
-    ctx.extra["trace_validation"] = dict(source="tests/test_transformations.py run under harness/pytest_recorder.py", calls_seen=stats["seen"],
+    ctx.extra["trace_validation"] = dict(source="tests/ and the docstring examples of dimarray/ run under harness/pytest_recorder.py", calls_seen=stats["seen"],
                                          recorded=len(events), not_abstractable=stats["not_abstractable"], accepted=ok,
                                          corrupted_controls_rejected=len(controls))
